@@ -235,7 +235,7 @@ def run(ctx):
         jobs.append((job_poly, (2, 1, 3, first)))
         if not quick:
             jobs.append((job_poly, (2, 1, 4, first)))
-    per = 25 if quick else 400
+    per = 25 if quick else 2000
     for k in range(32):
         jobs.append((job_random, (ctx.seed * 31 + k, per)))
     events = []
